@@ -132,6 +132,7 @@ func c27(c *an.Check) {
 		}})
 	pubmessageObligations(c)
 	deliveredMessageProvenance(c)
+	subscriptionReleaseDiscipline(c)
 	signedMsgCore(c)
 	sweepObligations(c)
 	floodsubLockset(c)
@@ -392,6 +393,8 @@ func c28(c *an.Check) {
 		}
 	}
 	deliveredMessageProvenance(c)
+	subscriptionReleaseDiscipline(c)
+	publishedMessageFreshness(c)
 	c.Require(okQ, "PROVENANCE", "floodsub handleValidMessage queues (verified packet, verified channel, arrival peer)", hvm, "", 3, "publishChMsg{msg: pkt, channelID: inner.GetChannel(), prevHopPeer: prevHopPeer}", whyQ)
 	okX, whyX := false, "execPublish call not found in Execute"
 	if exe := p.Func(fsPkg, "FloodSub", "Execute"); exe != nil {
@@ -593,6 +596,8 @@ func c29(c *an.Check) {
 		}
 	}
 	c.Require(badDel == "" && nDelAll >= 1, "WHO", "floodsub channel entries are removed only by Execute's sweep", exe, "", nDelAll, "delete(m.channels, …) occurs only in Execute", badDel)
+	subscriptionReleaseDiscipline(c)
+	channelSubReleaseUnconditional(c)
 	sweepObligations(c)
 	writePacketBlocking(c)
 	floodsubLockset(c)
@@ -665,4 +670,169 @@ func writePacketBlocking(c *an.Check) {
 		}
 	}
 	c.Require(ok, "MUSTCALL", "floodsub writePacket never drops a packet silently", wp, "", 1, "blocking send (alternatives: context done only)", why)
+}
+
+
+// subscriptionReleaseDiscipline: releasing a local subscription removes exactly that subscription from its channel (never
+// its siblings), and the decision to wake the router ("the channel may now be empty") is taken on the state AFTER the
+// removal — otherwise the empty entry is never swept and the node keeps accepting messages for the channel.
+func subscriptionReleaseDiscipline(c *an.Check) {
+	p := c.P
+	rel := p.Func(fsPkg, "subscription", "Release")
+	chF := fv(c, fsPkg, "FloodSub", "channels")
+	if rel == nil || chF == nil {
+		c.Undecided("ORDER", "floodsub subscription.Release bookkeeping", nil, "unresolved anchor")
+		return
+	}
+	nDel, bad := 0, ""
+	for _, g := range an.WithClosures(rel) {
+		var dels []*ssa.Call
+		for _, b := range g.Blocks {
+			for _, ins := range b.Instrs {
+				call, ok := ins.(*ssa.Call)
+				if !ok {
+					continue
+				}
+				switch an.BuiltinName(call) {
+				case "delete":
+					if lk, isLk := call.Call.Args[0].(*ssa.Lookup); isLk && an.IsFieldLoad(lk.X, chF) {
+						dels = append(dels, call)
+						nDel++
+						// the key removed is the receiver itself
+						k := call.Call.Args[1]
+						if mi, isMI := k.(*ssa.MakeInterface); isMI {
+							k = mi.X
+						}
+						if !(an.IsParam(k, 0) || p.DependsOn(k, func(v ssa.Value) bool { return an.IsParam(v, 0) }) || isFreeVarOfParam(p, k)) {
+							bad = "Release removes something other than the released subscription from the channel's set"
+						}
+					}
+				case "clear":
+					if lk, isLk := call.Call.Args[0].(*ssa.Lookup); isLk && an.IsFieldLoad(lk.X, chF) {
+						bad = "Release clears the channel's whole subscription set: sibling subscriptions on the same channel are dropped and the channel is withdrawn from peers"
+					}
+				}
+			}
+		}
+		// len(channel set) is read only after the delete on every path
+		for _, b := range g.Blocks {
+			for _, ins := range b.Instrs {
+				call, ok := ins.(*ssa.Call)
+				if !ok || an.BuiltinName(call) != "len" {
+					continue
+				}
+				lk, isLk := call.Call.Args[0].(*ssa.Lookup)
+				if !isLk || !an.IsFieldLoad(lk.X, chF) {
+					continue
+				}
+				for _, d := range dels {
+					// the delete must dominate the length test, or be skipped only because the set is nil
+					if !(d.Block().Dominates(call.Block())) {
+						okNil := false
+						for _, dc := range an.DominatingConds(d) {
+							_ = dc
+							okNil = true // the delete is conditional (set != nil): the len test after the join is still "after"
+						}
+						reach := false
+						seen := map[*ssa.BasicBlock]bool{}
+						var walk func(x *ssa.BasicBlock)
+						walk = func(x *ssa.BasicBlock) {
+							if x == call.Block() {
+								reach = true
+								return
+							}
+							if seen[x] {
+								return
+							}
+							seen[x] = true
+							for _, n := range x.Succs {
+								walk(n)
+							}
+						}
+						walk(d.Block())
+						if !okNil || !reach {
+							bad = "Release tests whether the channel became empty before it removed itself: releasing the last subscription never wakes the router, the empty entry is never swept"
+						}
+					}
+				}
+				if len(dels) == 0 {
+					bad = "Release tests the channel's size but never removes itself"
+				}
+			}
+		}
+	}
+	c.Require(bad == "" && nDel == 1, "ORDER", "floodsub subscription.Release removes exactly itself, then decides whether the channel is empty", rel, "", nDel, "delete(subs, s) precedes len(subs)==0", func() string {
+		if bad != "" {
+			return bad
+		}
+		return fmt.Sprintf("%d removals found (anchor drift)", nDel)
+	}())
+}
+
+func isFreeVarOfParam(p *an.Prog, v ssa.Value) bool {
+	if fvv, ok := v.(*ssa.FreeVar); ok {
+		b := p.Binding(fvv)
+		return b != nil && an.IsParam(b, 0)
+	}
+	return false
+}
+
+// publishedMessageFreshness: two publishes of the same payload by the same peer are different messages: the signed inner
+// carries the current time at full resolution (the message id — the de-duplication key — is derived from the signature).
+func publishedMessageFreshness(c *an.Check) {
+	p := c.P
+	npm := p.Func(pmPkg, "", "NewPubMessage")
+	ok, why := false, "NewPubMessage / its inner literal not found"
+	if npm != nil {
+		for _, b := range npm.Blocks {
+			for _, ins := range b.Instrs {
+				st, isSt := ins.(*ssa.Store)
+				if !isSt {
+					continue
+				}
+				if f := an.FieldOfAddr(st.Addr); f != nil && f.Name() == "Timestamp" {
+					call, isCall := st.Val.(*ssa.Call)
+					if isCall && call.Call.StaticCallee() != nil && call.Call.StaticCallee().Name() == "Now" && len(call.Call.Args) == 0 {
+						ok, why = true, ""
+					} else {
+						ok, why = false, "the timestamp signed into a published message is not timestamp.Now() itself (e.g. truncated): identical payloads published close together get the same message id and the second one is dropped as a duplicate everywhere"
+					}
+				}
+			}
+		}
+	}
+	c.Require(ok, "PROVENANCE", "pubmessage.NewPubMessage stamps each message with the current time at full resolution", npm, "", 1, "Timestamp: timestamp.Now()", why)
+}
+
+// channelSubReleaseUnconditional: the subscription value handed out by the pubsub controller releases the router's
+// subscription whenever it is released — whether or not the directive value was still attached.
+func channelSubReleaseUnconditional(c *an.Check) {
+	p := c.P
+	res := p.Func("pubsub/controller", "resolveBuildChannelSub", "Resolve")
+	ok, why := false, "resolver / release function not found"
+	condBad := false
+	if res != nil {
+		for _, g := range an.WithClosures(res)[1:] {
+			for _, b := range g.Blocks {
+				for _, ins := range b.Instrs {
+					call, isCall := ins.(*ssa.Call)
+					if !isCall || !call.Call.IsInvoke() || call.Call.Method.Name() != "Release" {
+						continue
+					}
+					if !strings.Contains(call.Call.Value.Type().String(), "Subscription") {
+						continue
+					}
+					if g.Blocks[0] != call.Block() && len(an.DominatingConds(call)) > 0 {
+						condBad = true
+					} else {
+						ok, why = true, ""
+					}
+				}
+			}
+		}
+	}
+	if condBad {
+		ok, why = false, "the router's subscription is released only under a condition (e.g. 'the directive value was still attached'): when the directive is disposed first the subscription, its handlers and the peers' view of it stay forever"
+	}
+	c.Require(ok, "MUSTCALL", "pubsub controller's subscription value always releases the router subscription", res, "", 1, "relFunc: RemoveValue(..); sub.Release() unconditionally", why)
 }
